@@ -87,6 +87,9 @@ DIRECTED_UNIVERSE = {
                 _dt(["dirx"], "Gauge", 1, 1, [_df("a", _U8)]),
                 _dt(["dirx"], "Gauge", 110, 0, [_df("c", {"t": "bool"})]),
                 _dt(["dirx"], "Panel", 1, 0, [_df("g1", _dref("dirx.Gauge", 1, 10)), _df("g2", _dref("dirx.Gauge", 11, 0)), _df("g3", _dref("dirx.Gauge", 110, 0)), _df("g4", _dref("dirx.Gauge", 1, 1))]),
+                # two MINOR versions of one type with different dependencies
+                dict(_dt(["dirx"], "Hub", 1, 0, [_df("w", _dref("dirx.parts.Wheel"))], sealed=False), body={"union": False, "sealed": False, "extent_extra": 0, "extent_bits": 1024, "attrs": [_df("w", _dref("dirx.parts.Wheel"))]}),
+                dict(_dt(["dirx"], "Hub", 1, 1, [], sealed=False), body={"union": False, "sealed": False, "extent_extra": 0, "extent_bits": 1024, "attrs": [_df("t", _dref("dirx.parts.Tyre")), _df("m", _dref("dirx.memory.M"))]}),
                 _dt(["dirx", "deep", "er"], "Either", 1, 0, [_df("old", _dref("dirx.Axle", 1, 0)), _df("new", _dref("dirx.Axle", 2, 0)), _df("n", _U8)], union=True),
                 _dt(["dirx"], "Car", 1, 0, [_df("front", _dref("dirx.Axle", 2, 1)), _df("rear", _dref("dirx.Axle", 1, 0)), _df("e", _dref("dirx.deep.er.Either"))], sealed=False),
                 {"ns": ["dirx"], "name": "Inspect", "major": 1, "minor": 0, "port_id": None, "kind": "service", "deprecated": False, "doc": [],
@@ -579,6 +582,13 @@ def make_machine(ctx: core.Ctx, configs: typing.List[dict]):
             env.select(step.get("variant", 0))
             keys = env.closure([env.order[i % len(env.order)] for i in step["seeds"]]) if step["seeds"] is not None else list(env.order)
             self.trace.append(step)
+            if step.get("abort"):
+                # a generation that ABORTS in the middle (an external post-processor that exits non-zero right after the first type
+                # file was rendered) inside this interpreter: whatever it leaves behind must not show in later runs
+                cfg_fail = dict(cfg, argv=list(cfg["argv"]) + ["--generate-support", "never", "--pp-run-program", "false"])
+                rc, _, _ = env.run(keys, cfg_fail, inproc=True)
+                ctx.event("aborted-run-in-interpreter" + ("" if rc != 0 else ".did-not-fail"))
+                return
             rc, files, se = env.run(keys, cfg, inproc=step["inproc"], hashseed=step.get("hashseed", "0"), creation_order=step.get("creation"))
             if rc != 0:
                 ctx.fail(f"C10|{cfg['name'].split('+')[0]}|run-failed|{'inproc' if step['inproc'] else 'fresh'}", f"generating {keys}: {se[-600:]}", {"universe": env.variants[0], "trace": list(self.trace)})
@@ -593,6 +603,10 @@ def make_machine(ctx: core.Ctx, configs: typing.List[dict]):
             how = ("same-interpreter" if step["inproc"] else f"fresh-process-hashseed") + ("|subset" if step["seeds"] is not None else "|whole-namespace")
             if not compare(ctx, env, keys, cfg, files, how, list(self.trace)):
                 raise AssertionError("type file differs from model")
+
+        @rule(cfg=st.sampled_from(["c", "c+pp", "cpp", "user", "user+limit1"]))
+        def aborted_run_inproc(self, cfg):
+            self.step({"seeds": None, "cfg": cfg, "inproc": True, "abort": True})
 
         @rule(seeds=st.lists(st.integers(0, 5), min_size=1, max_size=3), cfg=st.sampled_from([c["name"] for c in configs]), creation=st.lists(st.integers(0, 5), max_size=4))
         def run_subset_inproc(self, seeds, cfg, creation):
@@ -734,6 +748,8 @@ def run(ctx: core.Ctx):
         nkeys = len(m.env.order)
         axles = [i for i, k in enumerate(m.env.order) if ".Axle." in k]
         for cfg in ("c", "c+supns", "cpp", "cpp+supns", "py", "user+limit1"):
+            if cfg in ("c", "cpp", "user+limit1"):
+                m.step({"seeds": None, "cfg": cfg, "inproc": True, "abort": True})
             m.step({"seeds": None, "cfg": cfg, "inproc": True})
             if cfg.endswith("+supns"):
                 m.step({"seeds": None, "cfg": cfg.split("+")[0], "inproc": True})
